@@ -514,6 +514,35 @@ func (c *Ctx) listIterRule(rule string, fn *ssa.Function, control bool) int {
 			}
 		}
 	}
+	// a loop that re-reads the list's Front() in every iteration never holds on to a removed element's links
+	// (whether it always moves on is C12.progress)
+	if !control {
+		for _, b := range fn.Blocks {
+			for _, in := range b.Instrs {
+				phi, ok := in.(*ssa.Phi)
+				if !ok || typeShort(phi.Type()) != "list.Element" || !loopHeaders(fn)[b] {
+					continue
+				}
+				popFront := false
+				for i, e := range phi.Edges {
+					if pr := b.Preds[i]; !(pr == b || b.Dominates(pr)) {
+						continue
+					}
+					if fc, isCall := e.(*ssa.Call); isCall && fc.Call.StaticCallee() != nil && fc.Call.StaticCallee().String() == "(*container/list.List).Front" {
+						popFront = true
+					} else {
+						popFront = false
+						break
+					}
+				}
+				if popFront {
+					n++
+					r.SawFn(p.ShortFn(fn))
+					r.Ok(rule, p.ShortFn(fn)+":list-loop", p.InstrPos(phi), "the loop re-reads the list's front in every iteration: no successor is read from an element the body may have removed")
+				}
+			}
+		}
+	}
 	return n
 }
 
